@@ -36,7 +36,7 @@ CLAIMED["C10"] = ("(a) every allocation site's size expression (linear form over
     "the sweeper recomputes from the type row and the stored length field; type rows agree with the record layout; "
     "(b) size-determining length fields are written only on an object allocated earlier in the same function; (c) heap segment sizes are "
     "multiples of the allocation granule; (d) the marker traces exactly the reference fields and, for variable-length types, the live slots "
-    "(stack: top) - over-tracing retains garbage; (e) every walk over the objects of a heap segment runs while p < h->data + h->size; (f, rule C10.e) a store through the result of an allocator that can return the shared out-of-memory exception object is preceded by a test excluding it (allocator layer and vm.c; advisory for constructors elsewhere). "
+    "(stack: top) - over-tracing retains garbage; (e) every walk over the objects of a heap segment runs while p < h->data + h->size; (f, rule C10.e) a store through the result of an allocator that can return the shared out-of-memory exception object is preceded by a test excluding it (allocator results in every unit, constructor results in vm.c). "
     "Decides the 'exact tiling' precondition (allocator and sweeper agree on every object's extent), not the sweep/coalescing "
     "arithmetic or heap-growth bounds.",
     "table/layout/site agreement (constant-evaluated type table vs ASTRecordLayout vs linear forms of allocation sizes); who-may-write with dominance",
